@@ -475,3 +475,22 @@ func Nested() *descriptorpb.FileDescriptorProto {
 		EnumType:    []*descriptorpb.EnumDescriptorProto{enum("Top", "TOP_ZERO", "TOP_ONE")},
 	}
 }
+
+// Dup: two files in different Go packages declaring messages with the SAME Go names at different
+// positions of the flattened message order (anything keyed by Go name across one plugin invocation
+// confuses them), for the co-generation independence check.
+func Dup() []*Schema {
+	a := corpusSchema("dupa")
+	a.Msgs = []Msg{
+		{Name: "A", Fields: []Field{{Num: 1, Kind: Int32, Shape: Singular}, {Num: 2, IsMsg: true, Msg: 1, Shape: Singular}}},
+		{Name: "B", Fields: []Field{{Num: 1, Kind: String, Shape: Singular}, {Num: 2, Kind: Sint64, Shape: Map, Key: String}}},
+		{Name: "Params", Fields: []Field{{Num: 1, Kind: Bool, Shape: Singular}}},
+	}
+	b := corpusSchema("dupb")
+	b.Msgs = []Msg{
+		{Name: "Params", Fields: []Field{{Num: 3, Kind: Bytes, Shape: Singular}, {Num: 1, IsMsg: true, Msg: 2, Shape: Repeated}}},
+		{Name: "B", Fields: []Field{{Num: 7, Kind: Double, Shape: Singular}}},
+		{Name: "A", Fields: []Field{{Num: 5, Kind: Uint64, Shape: Oneof, Group: 0}, {Num: 6, IsMsg: true, Msg: 1, Shape: Oneof, Group: 0}}},
+	}
+	return []*Schema{a, b}
+}
